@@ -29,6 +29,12 @@ def clean(b):
     return ANSI.sub(b"", b).decode("utf-8", "replace")
 
 
+def ptydrv_lines(txt):
+    if isinstance(txt, bytes):
+        txt = txt.decode("utf-8", "replace")
+    return re.sub(r"\x1b\[[0-9;?]*[A-Za-z]|\x01|\x02", "", txt).replace("\r", "\n").split("\n")
+
+
 class Violation(Exception):
     def __init__(self, sig, detail=None):
         self.sig = sig
@@ -296,6 +302,12 @@ class Session:
             if truth2 != truth:
                 raise Inconclusive("children changed while listing")
         got = {g: s for g, (_, s) in listed.items()}
+        if truth and not listed:
+            body = [l for l in ptydrv_lines(txt) if l.strip() and l.strip() != "jobs" and "vpP>" not in l]
+            if body:
+                # something was printed but none of it reads as `[id] gid Running|Stopped ...`: the listing format is
+                # not the one this monitor knows - no verdict rather than "misses a live job"
+                raise Inconclusive("jobs output not recognised: %r" % body[:2])
         if got != truth:
             extra = sorted(set(got) - set(truth))
             missing = sorted(set(truth) - set(got))
